@@ -149,7 +149,19 @@ func runC17(c *Ctx) {
 		}
 	}
 	var lookups, inserts, opens, incs []ssa.Instruction
-	allInstrs(of, func(i ssa.Instruction) {
+	// the critical section's steps may sit in helpers the function calls (a `registerConn` that inserts, say): their lock
+	// state is judged where they are (LockAn gives a callee the state at its call sites), their order on the call that
+	// reaches them from the function holding the lookup
+	lift := func(i ssa.Instruction) ssa.Instruction {
+		if i.Parent() == of {
+			return i
+		}
+		return c.liftTo(i, of)
+	}
+	instrsOf(c.scope(of, 2), func(i ssa.Instruction) {
+		if i.Parent() != of && lift(i) == nil {
+			return
+		}
 		switch x := i.(type) {
 		case *ssa.Lookup:
 			if cacheMapValue(x.X) {
@@ -186,12 +198,14 @@ func runC17(c *Ctx) {
 			}
 		}
 		// no unlock between lookup and insert
-		for _, lk := range lookups {
+		for _, lk0 := range lookups {
+			lk := lift(lk0)
 			allInstrs(of, func(u ssa.Instruction) {
 				if !isUnlock(u) || !c.fc.reachableFrom(of, lk, u) {
 					return
 				}
-				for _, ins := range inserts {
+				for _, ins0 := range inserts {
+					ins := lift(ins0)
 					if c.fc.reachableFrom(of, u, ins) {
 						okAll = false
 						c.r.bad(at, safeFname(of)+": unlock between lookup and insert", "the mutex is released between the cache lookup and the insert", []string{c.w.ipos(u)}, c.w.ipos(lk), c.w.ipos(u), c.w.ipos(ins))
@@ -200,10 +214,11 @@ func runC17(c *Ctx) {
 			})
 		}
 		// OpenIndex must come after a lookup on every path (otherwise the cache is bypassed)
-		for _, o := range opens {
+		for _, o0 := range opens {
+			o := lift(o0)
 			if p := c.fc.pathAvoiding(of, nil, func(i ssa.Instruction) bool { return i == o }, func(i ssa.Instruction) bool {
 				for _, l := range lookups {
-					if l == i {
+					if lift(l) == i {
 						return true
 					}
 				}
